@@ -4,6 +4,7 @@ import (
 	"fmt"
 	"go/types"
 	"sort"
+	"strings"
 
 	"golang.org/x/tools/go/ssa"
 )
@@ -83,8 +84,31 @@ func (ex *Exec) heap(st *State, name, sort string) Term {
 	}
 	ex.cx.heapSorts[name] = sort
 	init := mangle(name) + "!0"
-	ex.cx.declConst(init, sort)
+	if !ex.cx.declared[init] {
+		ex.cx.declConst(init, sort)
+		ex.typeHeap(name, Term{init, sort})
+	}
 	return Term{init, sort}
+}
+
+// typeHeap states that every cell of a (fresh) field heap holds a value of
+// the field's Go type (well-typedness of the heap).
+func (ex *Exec) typeHeap(name string, h Term) {
+	t, ok := ex.heapElemType[name]
+	if !ok || ex.cx.mode != "int" || !isInteger(t) || elemSortOf(h.Sort) != SInt {
+		return
+	}
+	if strings.HasPrefix(h.S, "(") {
+		return
+	}
+	lo, hi := typeRange(t)
+	ex.cx.assume(Term{fmt.Sprintf("(forall ((r!t Ref)) (! (and (<= %s (select %s r!t)) (<= (select %s r!t) %s)) :pattern ((select %s r!t))))", bigLit(lo).S, h.S, h.S, bigLit(hi).S, h.S), SBool})
+}
+
+func (ex *Exec) freshHeap(prefix, name, sort string) Term {
+	h := ex.cx.fresh(prefix+name, sort)
+	ex.typeHeap(name, h)
+	return h
 }
 
 func (ex *Exec) setHeap(st *State, name string, t Term) {
@@ -252,6 +276,7 @@ func (ex *Exec) mergeStates(label string, ins []edgeState) *State {
 			vals[i] = Sc{ex.heap(e.st, n, ex.cx.heapSorts[n])}
 		}
 		out.heaps[n] = ex.mergeVals("h_"+n, vals, guards).(Sc).T
+		ex.typeHeap(n, out.heaps[n])
 	}
 	vnames := map[string]bool{}
 	for _, e := range ins {
